@@ -413,6 +413,39 @@ def tables_case(rep):
                 ok = (np.all(sw.QE[0, :] == 0) and np.array_equal(sw.QE[1:, 1:], ref) and np.array_equal(sw.QE[1:, 0], np.broadcast_to(dtau, (M,)))
                       and np.all(np.triu(sw.QE, 0) == 0))
                 rep.side(f'tables/QE/{qe}/M{M}/{qt}', ok, {'QE': sw.QE.tolist()})
+    # the table for a name does not depend on which names the same sweeper instance was asked for before (all ordered pairs of names)
+    mi = SWEEPERS['multi_implicit']
+    for M, qt in ((3, 'RADAU-RIGHT'), (2, 'LOBATTO')):
+        coll = CollBase(M, 0, 1, node_type='LEGENDRE', quad_type=qt)
+
+        def fresh(name, explicit=False):
+            gen = QDELTA_GENERATORS[name](qGen=coll.generator, tLeft=0)
+            return np.asarray(gen.genCoeffs())
+
+        names = []
+        for qd in cm.IMPLICIT_QD:
+            try:
+                fresh(qd)
+                names.append(qd)
+            except Exception:
+                pass
+        for A in names:
+            for B_ in names:
+                try:
+                    L = cm.make_level(ss.FLin, {'A': [[-1.0]]}, gi, {'num_nodes': M, 'quad_type': qt, 'QI': A}, 0.1)
+                    second = L.sweep.get_Qdelta_implicit(B_)
+                    ok = np.array_equal(second[1:, 1:], fresh(B_), equal_nan=True) and np.array_equal(L.sweep.QI[1:, 1:], fresh(A), equal_nan=True)
+                    rep.side(f'tables/history/{A}-then-{B_}/M{M}/{qt}', ok, {'second': np.asarray(second).tolist(), 'ref': fresh(B_).tolist()})
+                    L = cm.make_level(ss.FMulti, {'A1': [[-1.0]], 'A2': [[0.5]]}, mi, {'num_nodes': M, 'quad_type': qt, 'Q1': A, 'Q2': B_}, 0.1)
+                    ok = np.array_equal(L.sweep.Q1[1:, 1:], fresh(A), equal_nan=True) and np.array_equal(L.sweep.Q2[1:, 1:], fresh(B_), equal_nan=True)
+                    rep.side(f'tables/multi_implicit/Q1={A}/Q2={B_}/M{M}/{qt}', ok, {'Q1': L.sweep.Q1.tolist(), 'Q2': L.sweep.Q2.tolist()})
+                except Exception as e:
+                    rep.side(f'tables/history/{A}-then-{B_}/M{M}/{qt}', False, f'{type(e).__name__}: {e}')
+        for A in cm.EXPLICIT_QD:
+            for B_ in cm.EXPLICIT_QD:
+                L = cm.make_level(ss.FImex, {'AI': [[-1.0]], 'AE': [[0.5]]}, im, {'num_nodes': M, 'quad_type': qt, 'QI': 'IE', 'QE': A}, 0.1)
+                second = L.sweep.get_Qdelta_explicit(B_)
+                rep.side(f'tables/history-explicit/{A}-then-{B_}/M{M}/{qt}', np.array_equal(second[1:, 1:], fresh(B_)), {'second': np.asarray(second).tolist()})
 
 
 def replay(path):
